@@ -54,6 +54,9 @@ def rebind_programs():
         "let-func": lambda n: "let %s = func (q) => q;" % n,
         "let-module": lambda n: "let %s = module {} => { let z = 1; };" % n,
         "let-tuple": lambda n: "let %s = {v = 1};" % n,
+        "let-constrained": lambda n: "let %s :: 0 = 1;" % n,
+        "constraint": lambda n: "constraint %s = in 1..5;" % n,
+        "constraint-alternation": lambda n: "constraint %s = 1 | 2;" % n,
     }
     for k1, k2 in itertools.product(binders, repeat=2):
         yield ("rebind", k1, k2), binders[k1]("x") + "\n" + binders[k2]("x")
@@ -159,8 +162,8 @@ def run(ctx):
     maxlen = 5 if thorough else 4
     ctx.bounds = {"pool": len(POOL), "sequence_length": maxlen, "reserved_words": len(RESERVED_MANUAL)}
     ctx.rule = ("every ordered sequence of 1..%d statements from a pool of %d interacting statements and every C01-S4 program, each cut at every "
-                "statement boundary (prefix law + reference interpreter on every prefix); %d reserved words x 3 binding positions; 16 pairs of "
-                "binders x 3 placements for rebinding. evaluations = eval_string runs; distinct non-trivial = programs with >= 2 statements "
+                "statement boundary (prefix law + reference interpreter on every prefix); %d reserved words x 3 binding positions; 49 pairs of "
+                "binders (let of a value, function, module, tuple; constrained let; two constraint statements) x 3 placements for rebinding. evaluations = eval_string runs; distinct non-trivial = programs with >= 2 statements "
                 "(each program text is distinct)." % (maxlen, len(POOL), len(RESERVED_MANUAL)))
     viol = []
     viol2 = []
